@@ -6,3 +6,41 @@ From MF Require Import Lib.Base Lib.Regex Model.GrammarTypes Model.Lexer Model.L
 (* every scanner: a terminal that Lark does not scan for line feeds cannot match one *)
 Lemma the_grammar_lexers_ok : lexers_ok the_grammar = true.
 Proof. vm_compute. reflexivity. Qed.
+
+(* ---------------------------------------------------------------- block types at the root *)
+From MF Require Import Model.Case Model.Transformer Model.Api.
+Open Scope N_scope.
+
+Fixpoint index_of (k : str) (l : list str) (i : N) : option N :=
+  match l with
+  | [] => None
+  | x :: l' => if str_eqb k x then Some i else index_of k l' (i + 1)
+  end.
+
+(* the terminals the grammar's composite_type rule can open a block with *)
+Definition block_type_terms (g : grammar) : list N :=
+  match index_of (Str "composite_type") (g_nonterm_names g) (N.of_nat (length (g_term_names g))) with
+  | Some ct => flat_map (fun r => if r_origin r =? ct then r_expansion r else []) (g_rules g)
+  | None => []
+  end.
+
+Definition term_name (g : grammar) (t : N) : str :=
+  match nth_N (g_term_names g) t with Some s => s | None => [] end.
+
+Definition block_type_names : list str :=
+  map (term_name the_grammar) (block_type_terms the_grammar)
+  ++ [Str "METADATA"; Str "VALIDATION"; Str "CONNECTIONOPTIONS"; Str "SYMBOLSET"].
+
+Definition root_ok (name : str) : bool :=
+  match loads false false (name ++ Str " END") with
+  | Ok (VDict _ ((k, VStr ty) :: _)) => str_eqb k (Str "__type__") && str_eqb ty (lower name)
+  | Ok (VDict _ items) =>        (* key-value blocks store __type__ last *)
+      match assoc (Str "__type__") items with Some (VStr ty) => str_eqb ty (lower name) | _ => false end
+  | _ => false
+  end.
+
+Lemma every_block_type_is_a_root : forallb root_ok block_type_names = true.
+Proof. vm_compute. reflexivity. Qed.
+
+Lemma block_type_count : length block_type_names = 23%nat.
+Proof. vm_compute. reflexivity. Qed.
